@@ -8,6 +8,7 @@ import Asn1.GenKernels
 import Asn1.Encoder
 import Proofs.Digits
 import Proofs.TagLen
+import Proofs.X690Prim
 
 namespace Asn1.Kernels
 open Py
@@ -353,5 +354,151 @@ theorem oidEncode_kernel (arcs : List Nat) :
         simp [liftOid]
       · have : ¬ ((first : Int) = 2) := by omega
         simp [this, f2, liftOid, throw_eq]
+
+/-! ### to_bytes (two's complement in the fewest octets) -/
+
+theorem natToBE_concat (bs : Bytes) (b : UInt8) :
+    Py.natToBE (bs.length + 1) (bytesToNat bs * 256 + b.toNat) = Py.natToBE bs.length (bytesToNat bs) ++ [(b.toNat : Int)] := by
+  have hb : b.toNat < 256 := UInt8.toNat_lt b
+  simp only [Py.natToBE]
+  rw [show (bytesToNat bs * 256 + b.toNat) / 256 = bytesToNat bs by omega,
+      show (bytesToNat bs * 256 + b.toNat) % 256 = b.toNat by omega]
+  rfl
+
+/-- the `k` big-endian digits of the unsigned value of a `k`-octet string are the octets -/
+theorem natToBE_bytes : ∀ (n : Nat) (bs : Bytes), bs.length = n → Py.natToBE n (bytesToNat bs) = bytesInts bs
+  | 0, bs, h => by
+    have : bs = [] := List.eq_nil_of_length_eq_zero h
+    subst this; rfl
+  | n + 1, bs, h => by
+    rcases List.eq_nil_or_concat bs with rfl | ⟨l, b, rfl⟩
+    · simp at h
+    · simp only [List.concat_eq_append, List.length_append, List.length_singleton, Nat.add_right_cancel_iff] at h
+      rw [List.concat_eq_append, Asn1.bytesToNat_concat, ← h, natToBE_concat, h, natToBE_bytes n l h]
+      simp [bytesInts]
+
+/-- `128·256^j = 2^(8j+7)` -/
+theorem half_pow : ∀ j : Nat, ((2 ^ (8 * j + 7) : Nat) : Int) = 128 * 256 ^ j
+  | 0 => by decide
+  | j + 1 => by
+    have ih := half_pow j
+    rw [show 8 * (j + 1) + 7 = (8 * j + 7) + 1 + 1 + 1 + 1 + 1 + 1 + 1 + 1 by omega]
+    simp only [Nat.pow_succ, Int.pow_succ] at ih ⊢
+    omega
+
+/-- the number of bits: `a < 2^b`, and `2^(b-1) ≤ a` unless `a = 0` -/
+def nbits (a : Nat) : Nat := Nat.log2 a + (if a = 0 then 0 else 1)
+
+theorem lt_pow_nbits (a : Nat) : a < 2 ^ nbits a := by
+  unfold nbits
+  by_cases h : a = 0
+  · subst h; decide
+  · simp only [h, if_false]; exact Nat.lt_log2_self
+
+theorem pow_nbits_le (a : Nat) (h : a ≠ 0) : 2 ^ (nbits a - 1) ≤ a := by
+  unfold nbits
+  simp only [h, if_false, Nat.add_sub_cancel]
+  exact Nat.log2_self_le h
+
+theorem nbits_div8 (a j : Nat) (hfit : a < 2 ^ (8 * j + 7))
+    (hmin : j = 0 ∨ ∃ i, j = i + 1 ∧ 2 ^ (8 * i + 7) ≤ a) : nbits a / 8 = j := by
+  have hup : nbits a ≤ 8 * j + 7 := by
+    by_cases h0 : a = 0
+    · subst h0; simp [nbits]
+    · have h1 := pow_nbits_le a h0
+      have : ¬ (8 * j + 7 ≤ nbits a - 1) := fun hc =>
+        absurd (Nat.lt_of_lt_of_le hfit (Nat.le_trans (Nat.pow_le_pow_right (by decide) hc) h1)) (Nat.lt_irrefl _)
+      omega
+  rcases hmin with rfl | ⟨i, rfl, hi⟩
+  · omega
+  · have h2 := lt_pow_nbits a
+    have : ¬ (nbits a ≤ 8 * i + 7) := fun hc =>
+      absurd (Nat.lt_of_lt_of_le (Nat.lt_of_le_of_lt hi h2) (Nat.pow_le_pow_right (by decide) hc)) (Nat.lt_irrefl _)
+    omega
+
+theorem bitLength_nat (a : Nat) : Py.bitLength (a : Int) = ((nbits a : Nat) : Int) := by
+  unfold Py.bitLength nbits
+  by_cases h : a = 0
+  · subst h; rfl
+  · have : (a : Int) ≠ 0 := by omega
+    simp [h, this]
+
+/-- **`to_bytes(value, signed=True)` as it is in the source** (`pyasn1/compat/integer.py`, the branch taken on
+    CPython 3) **computes the model's `intToBytes`**: the two's complement octets of every integer in the
+    fewest octets (what `IntegerEncoder` writes for non-zero values, and `[0]` for zero) -/
+theorem toBytes_kernel (z : Int) : GenK.toBytes z true 0 = .ok (bytesInts (intToBytes z)) := by
+  obtain ⟨j, hlen, hfit, hmin, hval⟩ := Asn1.intToBytes_spec z
+  -- the non-negative number whose bit length is taken
+  have ha : ∃ a : Nat, (if (true && decide (z < 0)) then Py.inv z else z) = (a : Int) ∧
+      ((a : Int) < 128 * 256 ^ j) ∧ (∀ i, ¬ Asn1.Fits z i → (128 * 256 ^ i : Int) ≤ a) := by
+    unfold Asn1.Fits at hfit
+    by_cases hz : z < 0
+    · refine ⟨(-z - 1).toNat, ?_, ?_, ?_⟩
+      · simp only [Bool.true_and, hz, decide_true, if_true, Py.inv]; omega
+      · omega
+      · intro i hi
+        unfold Asn1.Fits at hi
+        have := Asn1.pow256_pos i
+        omega
+    · refine ⟨z.toNat, ?_, ?_, ?_⟩
+      · simp only [Bool.true_and, hz, decide_false, Bool.false_eq_true, if_false]; omega
+      · omega
+      · intro i hi
+        unfold Asn1.Fits at hi
+        have := Asn1.pow256_pos i
+        omega
+  obtain ⟨a, hae, hafit, hamin⟩ := ha
+  have hb : nbits a / 8 = j := by
+    apply nbits_div8
+    · have := half_pow j; omega
+    · rcases hmin with rfl | ⟨i, rfl, hni⟩
+      · exact Or.inl rfl
+      · refine Or.inr ⟨i, rfl, ?_⟩
+        have := hamin i hni
+        have := half_pow i
+        omega
+  unfold GenK.toBytes
+  rw [hae, bitLength_nat]
+  have hmax : Py.max ((nbits a : Nat) : Int) 0 = ((nbits a : Nat) : Int) := by
+    unfold Py.max
+    have : ¬ (((nbits a : Nat) : Int) < 0) := by omega
+    simp [this]
+  simp only [hmax, Bool.true_and, bind, Except.bind, pure, Except.pure]
+  -- number of octets
+  have hn : ∀ L : Int, (L = (nbits a : Nat) ∧ (nbits a) % 8 ≠ 0) ∨ (L = (nbits a : Nat) + 1 ∧ (nbits a) % 8 = 0) →
+      Py.fdiv L 8 + Py.orI (Py.andI (Py.fmod L 8) 1) 0 = ((j + 1 : Nat) : Int) := by
+    intro L hL
+    unfold Py.fdiv Py.fmod Py.orI Py.andI
+    rw [Int.fdiv_eq_ediv_of_nonneg _ (by decide), Int.fmod_eq_emod_of_nonneg _ (by decide)]
+    rcases hL with ⟨rfl, h8⟩ | ⟨rfl, h8⟩
+    · have : (((nbits a : Nat) : Int) % 8) ≠ 0 := by omega
+      simp [this]; omega
+    · have : ((((nbits a : Nat) : Int) + 1) % 8) ≠ 0 := by omega
+      simp [this]; omega
+  have hrange : -(2 : Int) ^ (8 * (j + 1)) ≤ 2 * z ∧ 2 * z < (2 : Int) ^ (8 * (j + 1)) := by
+    rw [Asn1.two_pow_full, Int.pow_succ]
+    unfold Asn1.Fits at hfit
+    omega
+  have hout : Py.toBytes z ((j + 1 : Nat) : Int) true = .ok (bytesInts (intToBytes z)) := by
+    unfold Py.toBytes
+    simp only [Int.toNat_natCast, if_true, hrange, and_self, pure, Except.pure]
+    congr 1
+    rw [← natToBE_bytes (j + 1) (intToBytes z) hlen]
+    congr 1
+    have h2 : (2 : Int) ^ (8 * (j + 1)) = 256 * 256 ^ j := by
+      rw [Asn1.two_pow_full, Int.pow_succ]; omega
+    rw [h2]
+    show (z % (256 * 256 ^ j)).toNat = _
+    rw [← hval]
+    simp
+  by_cases h8 : nbits a % 8 = 0
+  · have hc : Py.fmod ((nbits a : Nat) : Int) 8 = 0 := by
+      unfold Py.fmod; rw [Int.fmod_eq_emod_of_nonneg _ (by decide)]; omega
+    simp only [hc, decide_true, if_true]
+    rw [hn _ (Or.inr ⟨rfl, h8⟩), hout]
+  · have hc : ¬ Py.fmod ((nbits a : Nat) : Int) 8 = 0 := by
+      unfold Py.fmod; rw [Int.fmod_eq_emod_of_nonneg _ (by decide)]; omega
+    simp only [hc, decide_false, Bool.false_eq_true, if_false]
+    rw [hn _ (Or.inl ⟨rfl, h8⟩), hout]
 
 end Asn1.Kernels
